@@ -116,6 +116,29 @@ func refDelay(kind string, k int) time.Duration {
 	return d
 }
 
+// classOf maps a response kind to the feature used in violation signatures (keeps the number of classes small).
+func classOf(kind string) string {
+	switch kind {
+	case "":
+		return "never-posted"
+	case "400":
+		return "400"
+	case "429":
+		return "429-no-header"
+	case "429ra0":
+		return "429-retry-after-0"
+	case "429ra2", "429ra60":
+		return "429-retry-after-N"
+	case "hang":
+		return "timeout"
+	case "reset":
+		return "connection-reset"
+	case "204", "slow204":
+		return "204"
+	}
+	return "error-status"
+}
+
 // ---------------------------------------------------------------------------------------------------------------
 // the remote: an HTTP/1.1 peer on net.Pipe, driven step by step by the driver
 
@@ -257,6 +280,7 @@ type execResult struct {
 	nEnq      int
 	herr      string
 	truncated bool
+	wedged    bool
 	flags     map[string]bool
 }
 
@@ -276,7 +300,8 @@ func execute(t *testing.T, cfg Cfg, maxDecisions int, choose chooser) (res *exec
 	dir := vlib.Scratch("c27-")
 	defer os.RemoveAll(dir)
 	defer func() {
-		if r := recover(); r != nil {
+		if r := recover(); r != nil && !res.wedged {
+			// (a wedged pipeline leaves blocked goroutines behind: synctest then panics when the bubble ends — expected)
 			res.herr = fmt.Sprintf("bubble panicked: %v", r)
 		}
 	}()
@@ -318,8 +343,16 @@ func drive(cfg Cfg, dir string, maxDecisions int, choose chooser, res *execResul
 		srv.mu.Lock()
 		close(srv.quit)
 		srv.mu.Unlock()
-		if err := qm.CloseAll(); err != nil && res.herr == "" {
-			res.herr = "CloseAll: " + err.Error()
+		closed := make(chan error, 1)
+		go func() { closed <- qm.CloseAll() }()
+		select {
+		case err := <-closed:
+			if err != nil && res.herr == "" {
+				res.herr = "CloseAll: " + err.Error()
+			}
+		case <-time.After(30 * time.Minute): // fake time: nothing in the pipeline waits that long
+			res.wedged = true
+			res.fail("shutdown/close-never-returns", "CloseAll did not return within 30 min of fake time: the replication goroutine is wedged and cannot forward anything any more")
 		}
 		synctest.Wait()
 		time.Sleep(clientTO + time.Second) // lets the http.Client time-out goroutines of finished requests expire
@@ -402,7 +435,11 @@ func drive(cfg Cfg, dir string, maxDecisions int, choose chooser, res *execResul
 		for j := 0; ok && j < len(idx); j++ {
 			ok = idx[j] == h+j
 		}
-		s := fmt.Sprint(idx)
+		names := make([]string, len(idx))
+		for j, i := range idx {
+			names[j] = fmt.Sprintf("b%d", i+1)
+		}
+		s := fmt.Sprint(names)
 		if s != qstr {
 			qstr = s
 			tr("queue=%s", qstr)
@@ -418,11 +455,8 @@ func drive(cfg Cfg, dir string, maxDecisions int, choose chooser, res *execResul
 			}
 			if i < h && !settled[i] && !aged(i) {
 				last := enq[i].last
-				if last == "" {
-					last = "never-posted"
-				}
-				res.fail(vlib.JoinSig("removed-before-accepted", "last-response="+last, fmt.Sprintf("drop=%v", cfg.Drop), fmt.Sprintf("maxage=%d", cfg.MaxAge)),
-					fmt.Sprintf("batch b%d (enqueued at %s, last response %s) left the queue at or before %s although the remote never accepted it (drop=%v, max age %ds)",
+				res.fail(vlib.JoinSig("removed-before-accepted", "last-response="+classOf(last), fmt.Sprintf("drop=%v", cfg.Drop), fmt.Sprintf("purge-window=%v", cfg.MaxAge > 0)),
+					fmt.Sprintf("batch b%d (enqueued at %s, last response %q) left the queue at or before %s although the remote never accepted it (drop=%v, max age %ds)",
 						i+1, fmtD(enq[i].t), last, fmtD(now()), cfg.Drop, cfg.MaxAge))
 			}
 		}
@@ -490,7 +524,7 @@ func drive(cfg Cfg, dir string, maxDecisions int, choose chooser, res *execResul
 					if gap < lastFail.delay {
 						dir = "early"
 					}
-					res.fail(vlib.JoinSig("retry-delay/wrong-delay", "after="+lastFail.kind, dir),
+					res.fail(vlib.JoinSig("retry-delay/wrong-delay", "after="+classOf(lastFail.kind), dir),
 						fmt.Sprintf("after %s (consecutive failure #%d) the documented wait is %s but the next attempt came after %s", lastFail.kind, k, fmtD(lastFail.delay), fmtD(gap)))
 				}
 			}
@@ -670,11 +704,8 @@ func drive(cfg Cfg, dir string, maxDecisions int, choose chooser, res *execResul
 			for i := range enq {
 				if !settled[i] && !(aged(i) && !inQ[i]) {
 					last := enq[i].last
-					if last == "" {
-						last = "never-posted"
-					}
-					res.fail(vlib.JoinSig("liveness/batch-never-accepted", "last-response="+last),
-						fmt.Sprintf("b%d (last response %s) was still unaccepted %s after the last activity; queue=%s", i+1, last, fmtD(hz), qstr))
+					res.fail(vlib.JoinSig("liveness/batch-never-accepted", "last-response="+classOf(last)),
+						fmt.Sprintf("b%d (last response %q) was still unaccepted %s after the last activity; queue=%s", i+1, last, fmtD(hz), qstr))
 				}
 			}
 			return
@@ -726,27 +757,15 @@ func roots(t *testing.T, cfg Cfg) (out [][]int, herr string) {
 func configs(tier string) []Cfg {
 	common := []string{"500", "429", "429ra0", "429ra2", "400", "reset", "hang"}
 	rare := []string{"404", "slow204", "429ra60"}
-	f, n := []int{4, 3}, 2
+	f, n := []int{3, 2}, 2
 	if tier == "thorough" {
-		f, n = []int{5, 4, 3}, 3
-	}
-	type dm struct {
-		drop bool
-		ma   int64
-	}
-	combos := []dm{{false, 0}, {true, 0}, {false, 60}, {true, 60}}
-	if v := os.Getenv("VERIF_C27_COMBOS"); v != "" {
-		var k int
-		fmt.Sscan(v, &k)
-		combos = combos[:k]
+		f, n = []int{4, 3, 3}, 3
 	}
 	var out []Cfg
-	for _, c := range combos {
-		cfg := Cfg{Drop: c.drop, MaxAge: c.ma, F: f, N: n, Alpha: common}
-		if tier == "thorough" || (!c.drop && c.ma == 60) {
-			cfg.Rare, cfg.MaxRare = rare, 1
+	for _, ma := range []int64{0, 60} {
+		for _, drop := range []bool{false, true} {
+			out = append(out, Cfg{Drop: drop, MaxAge: ma, F: f, N: n, Alpha: common, Rare: rare, MaxRare: 1})
 		}
-		out = append(out, cfg)
 	}
 	return out
 }
@@ -755,12 +774,10 @@ func outcomeOf(r *execResult) string {
 	var parts []string
 	parts = append(parts, fmt.Sprintf("batches=%d", r.nEnq))
 	nf := 0
-	hang := false
 	for _, a := range r.actions {
 		if strings.HasPrefix(a, "R:") && a != "R:204" {
 			nf++
 		}
-		hang = hang || a == "R:hang"
 	}
 	parts = append(parts, fmt.Sprintf("faults=%d", nf))
 	if r.flags["accepted-batch-reposted"] {
@@ -890,9 +907,23 @@ func setup() {
 func TestCheck(t *testing.T) {
 	vlib.Main(t, &vlib.Check{
 		ID: "C27", Level: "model_checking",
-		Rule:            "TODO",
-		Assumptions:     []string{},
-		QuickBudgetS:    70,
+		Rule: "game tree over the REAL pipeline (durableQueueManager.InitializeQueue/EnqueueData + replicationQueue.run goroutine + remotewrite.writer/PostWrite + durable queue on tmpfs) inside a testing/synctest bubble; remote = scripted HTTP/1.1 peer on net.Pipe. " +
+			"Configurations: dropNonRetryableData ∈ {false,true} × maxAgeSeconds ∈ {0 (default window), 60}. First batch enqueued at fake t=10.1 s. At every quiescent point (synctest.Wait) the driver takes EVERY enabled action: " +
+			"(a) request pending at the remote: answer 204, answer with a fault kind, or enqueue the next batch (enqueue before the response); (b) no request pending (back-off or idle): wait for the next request, or enqueue the next batch (enqueue after the response). " +
+			"Fault kinds: {500, 429 without header, 429 Retry-After: 0, 429 Retry-After: 2, 400, connection reset, hang until the 2 min client time-out} plus at most ONE per path of {404, 204 delayed by 11 s (> scanner advance interval), 429 Retry-After: 60}. " +
+			"Bounds: ≤ N batches; a fault is offered while fewer than F[n] faults were used, n = batches enqueued so far — quick N=2, F=(3,2); thorough N=3, F=(4,3,3); 204 answers are unbounded (≤ N+F·N requests occur). " +
+			"A path ends when no request arrives for 1000 s of fake time (130 s if the queue is empty). Not offered: a hang/delayed answer that spans a purge tick while a receive signal is waiting, in the maxAge=60 configurations (run()'s select would pick at random between the two ready channels). " +
+			"Every path is executed from scratch (stateless DFS over choice sequences, sharded by the first 3 choices). Oracle = reference monitor written from the statement: a batch is posted only when every earlier batch was accepted (204, or 400 with drop) or aged out; an accepted batch is posted again only after a failed attempt (at-least-once rewind tolerated); " +
+			"at every quiescent point the queue content is a suffix of the enqueue order and every missing batch was accepted / dropped on 400 / older than max age; after the k-th consecutive failed attempt the next attempt starts EXACTLY Retry-After seconds (429 with a positive value), 0.5 s (Retry-After: 0), else 0.5 s·2^(k−2) later (15 min beyond 10 attempts), measured as fake-time differences between the end of the response (or the client giving up) and the arrival of the next request; at the end every batch is accepted or aged out. " +
+			"states = nodes of the game tree (distinct action prefixes ⇒ distinct (response-script prefix, enqueue placement, queue content)), transitions = remote requests served, traces = paths executed; non-trivial = path with ≥ 1 fault answer (paths are distinct by construction)",
+		Assumptions: []string{
+			"the durable queue ages segments by file mtime (kernel clock) while the purge cut-off uses time.Now() (fake in the bubble): the harness stamps every segment file the repo code touched with the current fake time at each quiescent point (never earlier than the true modification instant), so that the max-age purge runs on fake time",
+			"batches are small (one 10 MiB segment): segment roll-over is not exercised here",
+			"the exponent of the documented back-off counts the failed attempts since the last accepted request (rq.failedWrites), as passed by SendWrite",
+			"interleavings inside one fake instant are not enumerated: the driver acts only at quiescent points, where the pipeline's next step is deterministic (the one racy situation is excluded, see Rule)",
+			"the config store (sqlite) is replaced by a stub that always succeeds",
+		},
+		QuickBudgetS:    45,
 		ThoroughBudgetS: 800,
 		WorkerEnv:       []string{"GOMAXPROCS=1", "GOGC=400"},
 		Run:             func(c *vlib.Ctx) { setup(); explore(c) },
